@@ -41,7 +41,11 @@ RULE = (
     "scenario of the aliasing workload (a family of API calls on one object graph: base grids, transforms, atomic grids, molecular grids, Becke/Hirshfeld, "
     "cubic, periodic, multi-domain, Coulomb, utils, ODE IVP/BVP with callbacks returning fresh arrays / their ARGUMENT / a cached array / a view and "
     "non-zero a0,a1, Poisson BVP/IVP/robust/Laplacian with a reused option dict) x argument pattern (fresh, write-protected = sanitizer mode, "
-    "non-contiguous views, the same array passed twice) x replica k (sizes and numbers drawn from the case RNG). Non-fresh patterns first run the fresh "
+    "non-contiguous views, the same array passed twice) x replica k (sizes and numbers drawn from the case RNG; the DISCRETE options and special values of "
+    "each API - angular method, presets incl. shell-count ones, rotate, store, weight schemes, negative axes, use_log/nu_*, which=, wrap, trim_inf and the "
+    "transform end points, moment types, chunk sizes, elements without a Bragg radius, custom radii, orders - rotate deterministically with (replica, pattern) "
+    "so that every option is entered in every run). Family ode-data: initial values / boundary data / interval / mesh as list, tuple, float64, int, float32 "
+    "array and strided view x orders 1-3 x every transform setting x read-only, compared bitwise after the call. Non-fresh patterns first run the fresh "
     "baseline and compare results; every scenario finally compares every array/list/dict it created with a pristine copy (covers arrays handed to a "
     "constructor and modified by a later method). thorough adds more replicas and the repository's own tests run under the monitor in shards "
     "(family repo-tests, JSON side file). A case is non-trivial when at least one monitored call digested something."
@@ -361,6 +365,9 @@ def scn_basegrid(R, rng):
         lg = R.call("OneDGrid.get_localgrid", og.get_localgrid, 0.5, 0.2)
         if lg is not None:
             R.keep("1d-local", lg.points)
+    og2 = R.call("OneDGrid", OneDGrid, x, wx)  # without a domain
+    if og2 is not None:
+        R.keep("1d-nodomain", [og2.size, og2.domain is None])
     g1 = R.call("Grid", Grid, x, wx)
     if g1 is not None:
         lg = R.call("Grid.get_localgrid", g1.get_localgrid, np.float64(0.4), 0.3)
@@ -1075,6 +1082,8 @@ def scn_rejected(R, rng):
         ("PeriodicGrid.get_localgrid", lambda: PeriodicGrid(pts, w, np.eye(3) * 4).get_localgrid(pts[0], np.inf)),
         ("MultiDomainGrid", lambda: MultiDomainGrid(mk.obj([], "empty-grid-list"))),
         ("MultiDomainGrid", lambda: MultiDomainGrid(mk.obj([g, g], "two-grids"), num_domains=2)),
+        ("MultiDomainGrid.get_localgrid", lambda: MultiDomainGrid([g]).get_localgrid(pts[0], 1.0)),
+        ("MultiDomainGrid.moments", lambda: MultiDomainGrid([g]).moments(1, pts[:2], f)),
         ("solve_ode_bvp", lambda: solve_ode_bvp(x, lambda t: t, mk.obj([1.0, 0.5, 1.0], "coeffs"), mk.obj([[0, 0, 0.0]], "bd_cond-short"))),
         ("solve_ode_bvp", lambda: solve_ode_bvp(x, lambda t: t, [lambda t: t, 0.5, 1.0], mk.obj([[0, 0, 0.0], [1, 0, 1.0]], "bd_cond"), tol=1e-13, max_nodes=12)),
         ("solve_ode_ivp", lambda: solve_ode_ivp(mk.obj((0.0, 5.0), "x_span"), lambda t: t, [1.0, 0.5, 1.0], mk.obj([0.0, 1.0], "y0"), rt.LinearFiniteRTransform(0.0, 1.0))),
@@ -1317,18 +1326,21 @@ def run_ode_data(ctx, p):
             if guess is not None and ro:
                 guess.setflags(write=False)
             data = {"x": x, "coeffs": coeffs, "bd_cond": bd, "initial_guess_y": guess}
-            call = lambda: solve_ode_bvp(x, fx, coeffs, bd, tf, 1e-5, 20000, guess, False)  # noqa: E731
+            nod = DATA_KINDS.index(kind) % 2 == 1  # alternate no_derivatives (with a transform: solution only / with derivatives)
+            call = lambda: solve_ode_bvp(x, fx, coeffs, bd, tf, 1e-5, 20000, guess, nod)  # noqa: E731
         else:
             span = _as_kind([lo, hi], kind if kind in ("list", "tuple") else "float64-array", ro)
             y0 = _as_kind(y0_vals, kind, ro)
             data = {"x_span": span, "coeffs": coeffs, "y0": y0}
-            call = lambda: solve_ode_ivp(span, fx, coeffs, y0, tf, "DOP853", False, 1e-8, 1e-8)  # noqa: E731
+            nod = DATA_KINDS.index(kind) % 2 == 1
+            call = lambda: solve_ode_ivp(span, fx, coeffs, y0, tf, "DOP853", nod, 1e-8, 1e-8)  # noqa: E731
         pristine = _deep(data)
         val = None
         with ctx.guard("no-exception", subject):
             try:
                 sol = call()
                 val = np.asarray(sol(ev), dtype=float)
+                val = val[0] if val.ndim == 2 else val  # y(x) only: comparable whether or not derivatives are returned
             except _RunAway:
                 ctx.discard("runaway solve: callback call budget exceeded")
         changed = [k for k in data if not _same(data[k], pristine[k])]
@@ -1383,8 +1395,9 @@ def run_poisson(ctx, p):
         fv = mk(dens, "func_vals")
         P = mk.same(pts[:5]) if mk.alias else mk(rng.normal(size=(5, 3)), "eval-points")
         if kind in ("bvp", "bvp-mol"):
-            opts = mk.obj(R.pick([{"tol": 1e-4}, {}, {"tol": 1e-3, "max_nodes": 30000}, {"no_derivatives": True, "tol": 1e-4}]), "ode_params")
-            pot = R.call("solve_poisson_bvp", solve_poisson_bvp, grid, fv, tf, R.pick([None, 1.0]), True, R.pick([10.0, 50.0]), opts)
+            # the empty dict (every default filled in by the solver, tol 1e-6) only for the single-centre solve: minutes for two centres
+            opts = mk.obj(R.pick([{"tol": 1e-4}, {}, {"tol": 1e-3, "max_nodes": 30000}, {"no_derivatives": True, "tol": 1e-4}] if kind == "bvp" else [{"tol": 1e-3}, {"tol": 1e-4, "max_nodes": 30000}]), "ode_params")
+            pot = R.call("solve_poisson_bvp", solve_poisson_bvp, grid, fv, tf, R.pick([None, 1.0]), True, R.pick([10.0, 50.0, None]) if kind == "bvp" else 10.0, opts)
             if pot is not None:
                 R.keep("pot", R.call("solve_poisson_bvp()", pot, P))
             if kind == "bvp":  # the same dict again (option dict reused across calls), keyword style
